@@ -2248,6 +2248,17 @@ func (p *Parser) evaluateStatement(ctx context) (Statement, error) {
 
 			if err == nil && stmt == nil {
 				stmt, err = p.evaluateExpression(ctx)
+
+				// Like in Go, only a call can stand alone; any other value would be evaluated but not used.
+				if err == nil {
+					switch stmt.StatementType() {
+					case STATEMENT_TYPE_FUNCTION_CALL, STATEMENT_TYPE_APP_CALL, STATEMENT_TYPE_COPY, STATEMENT_TYPE_INPUT,
+						STATEMENT_TYPE_READ, STATEMENT_TYPE_WRITE, STATEMENT_TYPE_EXISTS, STATEMENT_TYPE_LEN:
+						// These cases are valid.
+					default:
+						return nil, p.atError(fmt.Sprintf("%s is evaluated but not used", stmt.StatementType()), token)
+					}
+				}
 			}
 		}
 	}
